@@ -354,9 +354,59 @@ def tolist(a):
     return [tolist(x) for x in a]
 
 
+def ceil_given(case):
+    """is a `ceil_set` (not None) handed to `crossval`?  `ceil: 'omit'` leaves the argument out
+    (round 5); `sets_k_fold_pattern` itself returns `ceil_set = None`"""
+    return case.get('ceil', 'gen') != 'omit' and case['gen']['kind'] != 'k_fold_pattern'
+
+
+def hand_parts(case, ctx):
+    """the hand-built folds of a case as position lists: per fold
+    {'train': (rows, conds, pidx codes), 'test': (…), 'ceil': (…)}; the ceil set of a fold is — as
+    the generators build it — the training RDMs at the test conditions"""
+    out = []
+    for f in case['gen']['folds']:
+        trc = [c for c in range(ctx.n_cond) if ctx.pdesc[c] in f['trp']]
+        tec = [c for c in range(ctx.n_cond) if ctx.pdesc[c] in f['tep']]
+        out.append({'train': (sorted(f['tr']), trc, list(f['trp'])),
+                    'test': (sorted(f['te']), tec, list(f['tep'])),
+                    'ceil': (sorted(f['tr']), tec, list(f['tep']))})
+    return out
+
+
+def idx_form(vals, form):
+    if form == 'tuple':
+        return tuple(vals)
+    if form == 'array':
+        return np.array(vals)
+    return list(vals)
+
+
+def hand_sets(case, data, ctx):
+    """train / test / ceil sets built by hand with the public selection methods of RDMs (no set
+    generator involved): any RDM positions, any groups of conditions"""
+    inv = {}
+    for code, val in zip(ctx.pdesc, ctx.pvals):
+        inv.setdefault(code, val)
+    form = case['gen'].get('idx_form', 'list')
+
+    def piece(rows, pcodes):
+        vals = [inv[c] for c in pcodes]
+        obj = data.subset('index', [int(r) for r in rows]).subset_pattern(ctx.pd, vals)
+        return (obj, idx_form(vals, form))
+    train, test, ceil = [], [], []
+    for f in case['gen']['folds']:
+        train.append(piece(f['tr'], f['trp']))
+        test.append(piece(f['te'], f['tep']))
+        ceil.append(piece(f['tr'], f['tep']))
+    return train, test, ceil
+
+
 def make_sets(case, data, ctx):
     g = case['gen']
     kind = g['kind']
+    if kind == 'hand':
+        return hand_sets(case, data, ctx)
     if kind == 'k_fold':
         return CVS.sets_k_fold(data, k_rdm=g['kr'], k_pattern=g['kp'], random=g.get('random', True),
                                pattern_descriptor=ctx.pd, rdm_descriptor=ctx.rd)
@@ -393,9 +443,18 @@ def call_routine(case, data, models, ctx, tap, th=None):
         return E.eval_bootstrap_rdm(models, data, rdm_descriptor=ctx.rd, **kw)
     if r == 'crossval':
         train, test, ceil = make_sets(case, data, ctx)
+        calc = case.get('calc_nc', True)
+        if case.get('calc_nc_form') == 'int':           # truthy / falsy non-bool arguments
+            calc = int(calc)
+        elif case.get('calc_nc_form') == 'np':
+            calc = np.bool_(calc)
+        if case.get('ceil', 'gen') == 'omit':
+            # round 5: the public default — no `ceil_set` argument at all
+            return E.crossval(models, data, train, test, method=method, fitter=tap.fitters,
+                              pattern_descriptor=ctx.pd, calc_noise_ceil=calc)
         return E.crossval(models, data, train, test, ceil_set=ceil, method=method,
                           fitter=tap.fitters, pattern_descriptor=ctx.pd,
-                          calc_noise_ceil=case.get('calc_nc', True))
+                          calc_noise_ceil=calc)
     if r == 'bcv':
         return E.bootstrap_crossval(models, data, method=method, fitter=tap.fitters,
                                     k_pattern=case.get('kp'), k_rdm=case.get('kr'), N=case['N'],
